@@ -52,6 +52,21 @@ def _from_run(depth=2):
     return bool(st) and f.f_code.co_name == 'run' and f.f_code.co_filename.endswith('doctest_example.py') and f.f_locals.get('self') is st[-1]['dt']
 
 
+def missing_targets():
+    """names of wrap targets that do not exist in the xdoctest under test (a refactoring may have renamed a private function):
+    the trace phases are then skipped, visibly (evidence), instead of failing - the replay phases do not depend on the probe"""
+    import xdoctest
+    from xdoctest import doctest_example, doctest_part, directive, checker, runner, core
+    from xdoctest import __main__ as xmain
+    from xdoctest.utils import util_stream
+    DocTest, Part = doctest_example.DocTest, doctest_part.DoctestPart
+    targets = [(DocTest, 'run'), (DocTest, '_import_module'), (DocTest, '_post_run'), (DocTest, '_parse'), (Part, 'has_any_code'), (Part, 'compilable_source'),
+               (Part, 'check'), (directive.RuntimeState, 'update'), (checker, 'check_exception'), (util_stream.CaptureStdout, '__enter__'),
+               (util_stream.CaptureStdout, '__exit__'), (runner, 'doctest_module'), (runner, '_run_examples'), (runner, '_convert_to_test_module'),
+               (runner, '_parse_commandline'), (core, 'parse_doctestables'), (xmain, 'main'), (xdoctest, 'doctest_module')]
+    return ['%s.%s' % (getattr(o, '__name__', o), n) for o, n in targets if not hasattr(o, n)]
+
+
 def install():
     if _installed[0]:
         return
